@@ -52,6 +52,12 @@ func lowerVec(r *mrand.Rand, v [16]byte) [16]byte {
 	return out
 }
 
+func scan(s, f string, p *int) bool { n, _ := fmt.Sscanf(s, f, p); return n == 1 }
+
+// malformed first-level shapes: a level that does not carry sixteen SGX and sixteen TDX components (or no status) is never the
+// matching UpToDate level
+var levelShapes = []string{"status-omitted", "sgx-omitted", "tdx-omitted", "both-omitted", "sgx-empty", "tdx-empty", "sgx-1", "sgx-2", "sgx-15", "sgx-17", "tdx-1", "tdx-2", "tdx-3", "tdx-15", "tdx-17", "both-2", "both-15", "both-17", "both-32"}
+
 func failAt(s string) int {
 	var k int
 	fmt.Sscanf(s, "fail@%d", &k)
@@ -108,7 +114,7 @@ func (m absModule) String() string {
 }
 
 func allAbsModules(two bool) []absModule {
-	out := []absModule{{kind: "absent"}, {kind: "omitted"}, {kind: "wrong-id"}}
+	out := []absModule{{kind: "absent"}, {kind: "omitted"}, {kind: "wrong-id"}, {kind: "level-without-status"}}
 	var ones []absIsv
 	for _, rel := range []int{-1, 0, 1} {
 		for st := range world.Statuses {
@@ -142,6 +148,8 @@ func (m absModule) apply(w *world.World) {
 		if dec := fmt.Sprintf("TDX_%02d", p.TeeTcb[1]); dec != id {
 			w.Tcb.Mods = append(w.Tcb.Mods, world.ModIdent{ID: dec, Levels: []world.IsvLevel{{Isv: 0, Status: "UpToDate"}}})
 		}
+	case "level-without-status": // the matching module level carries no tcbStatus member: not UpToDate
+		w.Tcb.Mods = []world.ModIdent{{ID: id, Levels: []world.IsvLevel{{Isv: uint32(p.TeeTcb[0]), NoStatus: true}, {Isv: 0, Status: "UpToDate"}}}}
 	case "levels":
 		var ls []world.IsvLevel
 		for _, l := range m.levels {
@@ -226,6 +234,30 @@ func c04Case(base *world.World, r *mrand.Rand, lv []absLevel, mod absModule, ide
 	w.Tcb.Levels = nil
 	for _, a := range lv {
 		w.Tcb.Levels = append(w.Tcb.Levels, a.concretise(r, w.P))
+	}
+	if strings.HasPrefix(class, "level-shape/") { // the FIRST level is malformed in the named way
+		l := &w.Tcb.Levels[0]
+		var n int
+		switch sh := strings.TrimPrefix(class, "level-shape/"); {
+		case sh == "status-omitted":
+			l.NoStatus = true
+		case sh == "sgx-omitted":
+			l.SgxN = -1
+		case sh == "tdx-omitted":
+			l.TdxN = -1
+		case sh == "both-omitted":
+			l.SgxN, l.TdxN = -1, -1
+		case sh == "sgx-empty":
+			l.SgxN = -2
+		case sh == "tdx-empty":
+			l.TdxN = -2
+		case strings.HasPrefix(sh, "sgx-") && scan(sh, "sgx-%d", &n):
+			l.SgxN = n
+		case strings.HasPrefix(sh, "tdx-") && scan(sh, "tdx-%d", &n):
+			l.TdxN = n
+		case scan(sh, "both-%d", &n):
+			l.SgxN, l.TdxN = n, n
+		}
 	}
 	mod.apply(w)
 	applyIdent(ident, w, r)
@@ -340,6 +372,20 @@ func c04(x *mon.Ctx) {
 			}
 		}
 	}
+	// ---- malformed first level (would match and be UpToDate if it were well-formed), alone or followed by a well-formed level
+	for _, sh := range levelShapes {
+		for k := 0; k < 3; k++ {
+			for _, second := range []int{-1, 0, 4} { // none | UpToDate | OutOfDate
+				for _, first := range []absLevel{good, {0, 0, 0, 0}} {
+					lv := []absLevel{first}
+					if second >= 0 {
+						lv = append(lv, absLevel{1, 1, 1, second})
+					}
+					jobs = append(jobs, job{k, lv, absModule{"levels", []absIsv{{0, 0}}}, "match", "level-shape/" + sh})
+				}
+			}
+		}
+	}
 	// ---- 2-level space
 	r2 := x.Rand("two")
 	if x.Quick() {
@@ -366,7 +412,7 @@ func c04(x *mon.Ctx) {
 			ls = append(ls, a.String())
 		}
 		param := fmt.Sprintf("[%s] module=%s ident=%s", strings.Join(ls, " | "), j.mod, j.ident)
-		if strings.HasPrefix(j.class, "identity/") {
+		if strings.HasPrefix(j.class, "identity/") || strings.HasPrefix(j.class, "level-shape/") {
 			param += fmt.Sprint("#", i)
 		}
 		c := c04Case(bases[j.k], x.Rand(fmt.Sprint("c", i)), j.lv, j.mod, j.ident, j.class, param)
@@ -421,6 +467,13 @@ func c04(x *mon.Ctx) {
 	x.Require("2-level/tee1=1", 3, 1000, 2000)
 	x.Require("2-level/tee1=2", 3, 1000, 2000)
 	x.Require("1-level/tee1>=10", 5, 100, 300)
+	for _, sh := range levelShapes {
+		if sh == "status-omitted" {
+			x.Require("level-shape/"+sh, 0, 18, 18) // the level matches, and a level without a status is not UpToDate
+			continue
+		}
+		x.Require("level-shape/"+sh, 6, 12, 18) // accepted only through the well-formed UpToDate second level
+	}
 	x.Extra["exhaustive_1_level_space"] = true
 	x.Extra["abstract_levels"] = len(abs)
 	if !x.Quick() {
